@@ -69,12 +69,271 @@ theorem ffmt_p_pos (w : Nat) : 1 ≤ (ffmt w).p := by
 theorem roundF_idem (w : Nat) (f : F) : roundF w (roundF w f) = roundF w f := by
   cases f with
   | fin neg a =>
-    simp only [roundF]
-    split
-    · rename_i h
-      simp only [roundF, roundMag_idem _ _ _ (ffmt_p_pos w), h, if_true]
-    · rfl
+    by_cases h : roundMag (ffmt w).p (ffmt w).qmin a < 2 ^ (ffmt w).emax1
+    · have h1 : roundF w (.fin neg a) = .fin neg (roundMag (ffmt w).p (ffmt w).qmin a) := by
+        simp [roundF, h]
+      rw [h1]
+      simp [roundF, roundMag_idem _ _ _ (ffmt_p_pos w), h]
+    · have h1 : roundF w (.fin neg a) = .inf neg := by simp [roundF, h]
+      rw [h1]; rfl
   | inf n => rfl
   | nan => rfl
+
+/-! ## `mapM` in `Except` -/
+
+theorem mapM_ok_forall {α β : Type} {ε : Type} (f : α → Except ε β) (P : β → Prop) :
+    ∀ (xs : List α) (ys : List β), xs.mapM f = .ok ys → (∀ x ∈ xs, ∀ y, f x = .ok y → P y) → ∀ y ∈ ys, P y := by
+  intro xs
+  induction xs with
+  | nil => intro ys h _ y hy; simp [pure, Except.pure] at h; subst h; simp at hy
+  | cons x xs ih =>
+    intro ys h hP y hy
+    rw [List.mapM_cons] at h
+    cases hx : f x with
+    | error e => rw [hx] at h; simp [bind, Except.bind] at h
+    | ok b =>
+      rw [hx] at h
+      cases hr : xs.mapM f with
+      | error e => rw [hr] at h; simp [bind, Except.bind] at h
+      | ok bs =>
+        rw [hr] at h
+        simp [bind, Except.bind, pure, Except.pure] at h
+        subst h
+        rcases List.mem_cons.1 hy with rfl | hm
+        · exact hP x (List.mem_cons_self) _ hx
+        · exact ih bs hr (fun x' hx' => hP x' (List.mem_cons_of_mem _ hx')) y hm
+
+theorem mapM_id_of_forall {α : Type} {ε : Type} (f : α → Except ε α) :
+    ∀ (xs : List α), (∀ x ∈ xs, f x = .ok x) → xs.mapM f = .ok xs := by
+  intro xs
+  induction xs with
+  | nil => intro _; rfl
+  | cons x xs ih =>
+    intro h
+    rw [List.mapM_cons, h x List.mem_cons_self, ih (fun x' hx' => h x' (List.mem_cons_of_mem _ hx'))]
+    rfl
+
+theorem mapM_map_of_forall {α β : Type} {ε : Type} (f : α → Except ε β) (g : β → α) :
+    ∀ (ys : List β), (∀ y ∈ ys, f (g y) = .ok y) → (ys.map g).mapM f = .ok ys := by
+  intro ys
+  induction ys with
+  | nil => intro _; rfl
+  | cons y ys ih =>
+    intro h
+    rw [List.map_cons, List.mapM_cons, h y List.mem_cons_self, ih (fun y' hy' => h y' (List.mem_cons_of_mem _ hy'))]
+    rfl
+
+/-! ## the concrete oracle satisfies the laws -/
+
+theorem two_pow_le (w : Nat) : (2 : Int) ^ w ≤ 2 * (2 : Int) ^ (w - 1) := by
+  cases w with
+  | zero => decide
+  | succ k => simp [Int.pow_succ]; omega
+
+theorem two_pow_pos' (w : Nat) : (0 : Int) < (2 : Int) ^ w := Int.pow_pos (by decide)
+
+theorem inDT_wrapU (w : Nat) (i : Int) : inDT (.u w) (.int (wrapU w i)) = true := by
+  have hp := two_pow_pos' w
+  have h1 := Int.emod_nonneg i (Int.ne_of_gt hp)
+  have h2 := Int.emod_lt_of_pos i hp
+  simp [inDT, wrapU, h1, h2]
+
+theorem inDT_wrapI (w : Nat) (i : Int) : inDT (.i w) (.int (wrapI w i)) = true := by
+  have hp := two_pow_pos' w
+  have h1 := Int.emod_nonneg (i + (2 : Int) ^ (w - 1)) (Int.ne_of_gt hp)
+  have h2 := Int.emod_lt_of_pos (i + (2 : Int) ^ (w - 1)) hp
+  have h3 := two_pow_le w
+  have a1 : -((2 : Int) ^ (w - 1)) ≤ (i + (2 : Int) ^ (w - 1)) % (2 : Int) ^ w - (2 : Int) ^ (w - 1) := by omega
+  have a2 : (i + (2 : Int) ^ (w - 1)) % (2 : Int) ^ w - (2 : Int) ^ (w - 1) < (2 : Int) ^ (w - 1) := by omega
+  simp [inDT, wrapI, a1, a2]
+
+theorem inDT_round (w : Nat) (f : F) : inDT (.f w) (.float (roundF w f)) = true := by
+  simp [inDT, roundF_idem]
+
+theorem npElem_sound (dt : DType) (s e : Py) (h : npElem dt s = .ok e) : inDT dt e = true := by
+  cases dt with
+  | bool =>
+    simp only [npElem] at h
+    cases hb : pyBool s with
+    | error _ => rw [hb] at h; simp [Except.map] at h
+    | ok b => rw [hb] at h; simp [Except.map] at h; subst h; rfl
+  | u w =>
+    simp only [npElem] at h
+    cases hi : pyInt s with
+    | error _ => rw [hi] at h; simp [bind, Except.bind] at h
+    | ok i =>
+      rw [hi] at h
+      simp only [bind, Except.bind] at h
+      split at h
+      · rename_i hr; simp [pure, Except.pure] at h; subst h; simp [inDT, hr.1, hr.2]
+      · simp [throw, throwThe, MonadExceptOf.throw] at h
+  | i w =>
+    simp only [npElem] at h
+    cases hi : pyInt s with
+    | error _ => rw [hi] at h; simp [bind, Except.bind] at h
+    | ok i =>
+      rw [hi] at h
+      simp only [bind, Except.bind] at h
+      split at h
+      · rename_i hr; simp [pure, Except.pure] at h; subst h; simp [inDT, hr.1, hr.2]
+      · simp [throw, throwThe, MonadExceptOf.throw] at h
+  | f w =>
+    simp only [npElem] at h
+    split at h
+    · simp [pure, Except.pure] at h; subst h; rfl
+    · cases hf : pyFloat s with
+      | error _ => rw [hf] at h; simp [bind, Except.bind] at h
+      | ok f =>
+        rw [hf] at h; simp [bind, Except.bind, pure, Except.pure] at h; subst h
+        exact inDT_round w f
+  | obj => cases e <;> rfl
+
+theorem npCast_sound (dt : DType) (x e : Py) (h : npCast dt x = .ok e) : inDT dt e = true := by
+  unfold npCast at h
+  split at h <;> simp [pure, Except.pure, throw, throwThe, MonadExceptOf.throw] at h <;> subst h <;>
+    first | rfl | exact inDT_wrapU _ _ | exact inDT_wrapI _ _ | exact inDT_round _ _
+
+theorem npArray_sound (dt : DType) (x : Py) (xs : List Py) (h : npArray dt x = .ok xs) :
+    ∀ e ∈ xs, inDT dt e = true := by
+  have single : ∀ s, (npElem dt s).map (fun e => [e]) = .ok xs → ∀ e ∈ xs, inDT dt e = true := by
+    intro s hs
+    cases he : npElem dt s with
+    | error _ => rw [he] at hs; simp [Except.map] at hs
+    | ok e0 =>
+      rw [he] at hs; simp [Except.map] at hs; subst hs
+      intro e hm; simp at hm; subst hm; exact npElem_sound dt s _ he
+  cases x with
+  | list ys =>
+    simp only [npArray] at h
+    split at h
+    · exact mapM_ok_forall (npElem dt) (fun e => inDT dt e = true) ys xs h (fun x _ y hy => npElem_sound dt x y hy)
+    · simp at h
+  | nd dt' ys =>
+    simp only [npArray] at h
+    split at h
+    · split at h
+      · rename_i hall; simp at h; subst h
+        intro e he; exact (List.all_eq_true.1 hall) e he
+      · simp at h
+    · split at h
+      · simp at h
+      · exact mapM_ok_forall (npCast dt) (fun e => inDT dt e = true) ys xs h (fun x _ y hy => npCast_sound dt x y hy)
+  | dict _ _ => simp [npArray] at h
+  | missing => simp [npArray] at h
+  | none => exact single _ h
+  | bool _ => exact single _ h
+  | int _ => exact single _ h
+  | float _ => exact single _ h
+  | str _ => exact single _ h
+  | bytes _ _ => exact single _ h
+  | obj _ _ => exact single _ h
+
+theorem inDT_scalarLike (dt : DType) (e : Py) (h : inDT dt e = true) (ho : dt = .obj → isObj e = true) :
+    scalarLike e = true := by
+  cases dt <;> cases e <;> simp_all [inDT, scalarLike, isObj]
+
+theorem npElem_builtin (dt : DType) (e : Py) (h : inDT dt e = true) : npElem dt e = .ok e := by
+  cases dt with
+  | bool => cases e <;> simp_all [inDT, npElem, pyBool, Except.map]
+  | u w =>
+    cases e <;> simp_all [inDT, npElem, pyInt, bind, Except.bind, pure, Except.pure]
+  | i w =>
+    cases e <;> simp_all [inDT, npElem, pyInt, bind, Except.bind, pure, Except.pure]
+  | f w =>
+    cases e <;> simp_all [inDT, npElem, pyFloat, bind, Except.bind, pure, Except.pure]
+  | obj => rfl
+
+theorem npArray_builtin (dt : DType) (xs : List Py)
+    (h : ∀ e ∈ xs, inDT dt e = true ∧ (dt = .obj → isObj e = true)) : npArray dt (.list xs) = .ok xs := by
+  have hall : xs.all scalarLike = true :=
+    List.all_eq_true.2 (fun e he => inDT_scalarLike dt e (h e he).1 (h e he).2)
+  simp only [npArray, hall, if_true]
+  exact mapM_id_of_forall (npElem dt) xs (fun e he => npElem_builtin dt e (h e he).1)
+
+theorem npArray_same (dt : DType) (xs : List Py) (h : ∀ e ∈ xs, inDT dt e = true) :
+    npArray dt (.nd dt xs) = .ok xs := by
+  have hall : xs.all (inDT dt) = true := List.all_eq_true.2 h
+  simp [npArray, hall]
+
+/-- The oracle the driver runs is a lawful `NumPy`. -/
+def numpy : NumPy := ⟨npArray, npArray_sound, npArray_builtin, npArray_same⟩
+
+/-! ## setters -/
+
+/-- The stored array has the dtype `dt`, a permitted length and only elements the dtype can hold. -/
+def ArrOK (fixed : Bool) (cap : Nat) (dt : DType) (v : Py) : Prop :=
+  ∃ xs, v = .nd dt xs ∧ lenOK fixed cap xs.length = true ∧ ∀ y ∈ xs, inDT dt y = true
+
+theorem slowPath_ok (np : Oracle) (fixed : Bool) (cap : Nat) (dt : DType) (x v : Py)
+    (h : slowPath np fixed cap dt x = .ok v) :
+    ∃ xs, np dt x = .ok xs ∧ v = .nd dt xs ∧ lenOK fixed cap xs.length = true := by
+  unfold slowPath at h
+  cases hx : np dt x with
+  | error _ => rw [hx] at h; simp [bind, Except.bind] at h
+  | ok xs =>
+    rw [hx] at h
+    simp only [bind, Except.bind] at h
+    split at h
+    · rename_i hl; simp [pure, Except.pure] at h; exact ⟨xs, rfl, h.symm, hl⟩
+    · simp [throw, throwThe, MonadExceptOf.throw] at h
+
+theorem slowPath_stored (np : NumPy) (fixed : Bool) (cap : Nat) (dt : DType) (x v : Py)
+    (h : slowPath np.array fixed cap dt x = .ok v) : ArrOK fixed cap dt v := by
+  obtain ⟨xs, hx, hv, hl⟩ := slowPath_ok _ _ _ _ _ _ h
+  exact ⟨xs, hv, hl, np.sound dt x xs hx⟩
+
+theorem fastPath_stored (np : NumPy) (fixed : Bool) (cap : Nat) (dt : DType) (x v : Py) (hnd : ndOK x = true)
+    (h : fastPath np.array fixed cap dt x = .ok v) : ArrOK fixed cap dt v := by
+  unfold fastPath at h
+  split at h
+  · rename_i dt' xs
+    split at h
+    · rename_i hc
+      simp [pure, Except.pure] at h
+      refine ⟨xs, h.symm, hc.2, ?_⟩
+      have := List.all_eq_true.1 hnd
+      rw [← hc.1]; exact this
+    · exact slowPath_stored np _ _ _ _ _ h
+  · exact slowPath_stored np _ _ _ _ _ h
+
+theorem pickWidth_le8 (w : Nat) (h : w ≤ 8) : pickWidth w = 8 := by simp [pickWidth, h]
+
+theorem byteLike_dtype (e : Ty) (h : byteLike e = true) : dtypeOf e = .u 8 := by
+  cases e with
+  | int s w c =>
+    cases s with
+    | true => simp [byteLike] at h
+    | false => simp [byteLike] at h; simp [dtypeOf, pickWidth_le8 w h]
+  | _ => simp [byteLike] at h
+
+theorem fromBuffer_ok (fixed : Bool) (cap : Nat) (bs : List Nat) (h : lenOK fixed cap bs.length = true) :
+    ArrOK fixed cap (.u 8) (fromBuffer (.u 8) bs) := by
+  refine ⟨_, rfl, by simpa using h, ?_⟩
+  intro y hy
+  obtain ⟨b, _, rfl⟩ := List.mem_map.1 hy
+  have h2 : ((b % 256 : Nat) : Int) < 256 := by omega
+  have h1 : (0 : Int) ≤ ((b % 256 : Nat) : Int) := by omega
+  simp [inDT, h1]; omega
+
+theorem ndOK_encodeStr (fixed : Bool) (e : Ty) (x : Py) (h : ndOK x = true) : ndOK (encodeStr fixed e x) = true := by
+  unfold encodeStr
+  split
+  · split <;> simp_all [ndOK]
+  · exact h
+
+theorem assignArray_stored (np : NumPy) (fixed : Bool) (cap : Nat) (e : Ty) (x v : Py) (hnd : ndOK x = true)
+    (h : assignArray np.array fixed cap e x = .ok v) : ArrOK fixed cap (dtypeOf e) v := by
+  unfold assignArray assignCore at h
+  have hnd' := ndOK_encodeStr fixed e x hnd
+  split at h
+  · rename_i hb
+    split at h
+    · split at h
+      · rename_i hl
+        simp [pure, Except.pure] at h; subst h
+        rw [byteLike_dtype e hb]; exact fromBuffer_ok fixed cap _ hl
+      · simp [throw, throwThe, MonadExceptOf.throw] at h
+    · exact fastPath_stored np _ _ _ _ _ hnd' h
+  · exact fastPath_stored np _ _ _ _ _ hnd' h
 
 end NunavutVerif.PyObj
